@@ -57,6 +57,7 @@ structure St where
   rule : Rule
   out  : List String
   last : Option Entry
+  cb   : Option (Files × List Files) := none
 
 def annOf (code : Int) (pod : List (Option Ctr)) : Option Ann :=
   match code with
@@ -95,15 +96,20 @@ def runEntry (r : Rule) (e : Entry) : List String :=
      s!"ctr {i} proxy {showResp (ctrEntry k cfg e.be (ctrFromProxy e.ann i))}",
      s!"ctr {i} rec {showFiles (applyOut e.v2 init (ctrEntry k cfg e.be (ctrFromReconciler e.pod e.ann i)))}"]
 
-def runCb (r : Rule) (e : Entry) (isMeta : Bool) : List String :=
+/-- files of the "existing pod" (pod, containers) the rule callbacks act on; they persist over the callback history. -/
+def cbInit (e : Entry) : Files × List Files :=
+  -- the harness starts the callback history on cgroup v2 from an unlimited cpu.max (see the harness comment)
+  let q0 := if e.v2 then -1 else e.q0
+  let init := initFiles e.v2 e.s0 q0 e.m0
+  (init, e.pod.map (fun _ => init))
+
+def runCb (r : Rule) (e : Entry) (cur : Files × List Files) : (Files × List Files) × List String :=
   let (_, _, cfg) := cfgOf r
   let k := stdConsts
-  -- the harness starts the node-meta callback on cgroup v2 from an unlimited cpu.max (see the harness comment)
-  let q0 := if isMeta && e.v2 then -1 else e.q0
-  let init := initFiles e.v2 e.s0 q0 e.m0
-  [s!"cb pod {showFiles (applyQuota e.v2 init (podEntry k cfg e.be (podFromReconciler e.pod e.ann)))}"]
-  ++ (range e.pod.length).map fun i =>
-    s!"cb ctr {i} {showFiles (applyQuota e.v2 init (ctrEntry k cfg e.be (ctrFromReconciler e.pod e.ann i)))}"
+  let pod' := applyQuota e.v2 cur.1 (podEntry k cfg e.be (podFromReconciler e.pod e.ann))
+  let ctrs' := (cur.2.zip (range e.pod.length)).map fun (f, i) =>
+    applyQuota e.v2 f (ctrEntry k cfg e.be (ctrFromReconciler e.pod e.ann i))
+  ((pod', ctrs'), [s!"cb pod {showFiles pod'}"] ++ (ctrs'.zip (range e.pod.length)).map fun (f, i) => s!"cb ctr {i} {showFiles f}")
 
 def stepLine (st : St) (line : String) : St :=
   let r := st.rule
@@ -140,11 +146,13 @@ def stepLine (st : St) (line : String) : St :=
       | none => emit ["bad-op"]
       | some a =>
         let e : Entry := { be := be ≠ 0, ann := a, v2 := v2 ≠ 0, s0 := s0, q0 := q0, m0 := m0, pod := pod }
-        { st with out := st.out ++ runEntry r e, last := some e }
+        { st with out := st.out ++ runEntry r e, last := some e, cb := none }
     | _ => emit ["bad-op"]
   | ["cb", m] =>
     match int? m, st.last with
-    | some m, some e => emit (runCb r e (m ≠ 0))
+    | some _, some e =>
+      let (cur', ls) := runCb r e (st.cb.getD (cbInit e))
+      { st with out := st.out ++ ls, cb := some cur' }
     | _, _ => emit ["bad-op"]
   | _ => emit ["bad-op"]
 
